@@ -985,6 +985,7 @@ func SpecContains(s string, sub string) bool { return false }
 func SpecRdbBuffered(r *memoryRdb) int64 { panic("abstract spec function") }
 
 //@ spec SpecRdbBuffered abstract
+//@ axiom io_unexpected_eof_nonnil: io.ErrUnexpectedEOF != nil
 //@ func memoryRdb.bufferedSize(self) (n)
 //@   trusted sums the lengths of the snapshot's segments (abstract: SpecRdbBuffered)
 //@   modifies nothing
@@ -1000,7 +1001,7 @@ func SpecRdbBuffered(r *memoryRdb) int64 { panic("abstract spec function") }
 //@ func MemoryChannel.finishRdb
 //@   arith int
 //@   properties C05 C16
-//@   replay syncer_incompleteSnapshotOffered
+//@   replay syncer_incompleteSnapshotOffered syncer_interruptedSnapshot
 //@   requires nonnil: mc != nil && writer != nil && writer.rdb != nil
 //@   modifies heap
 //@   ensures only_a_completely_received_snapshot_stays_on_offer: mc.rdb != nil && mc.rdb == old(writer.rdb) ==> SpecRdbBuffered(old(writer.rdb)) == old(writer.rdb.size)
